@@ -34,9 +34,11 @@ func Nets(tier string) []nk.Net {
 			mk(2, false, true, vault),
 			mk(3, true, false, vault),
 			mk(4, true, true, ""),
+			// a vault that the second voting reward drains (reward = 0.16 aergo per block)
+			mk(5, true, true, "240000000000000000"),
 		}
 	}
-	var out []nk.Net
+	out := []nk.Net{mk(5, true, true, "240000000000000000"), mk(3, true, false, "240000000000000000")}
 	for _, v := range []int{0, 2, 3, 4, 5} {
 		for _, pub := range []bool{true, false} {
 			for _, cb := range []bool{true, false} {
